@@ -128,6 +128,7 @@ type c12Universe struct {
 	rruns []run        // real runFromLintResult(lres[i])
 
 	filter   func(checked []string) bool  // optional restriction of the checked-file sets
+	stray    bool                         // runs may also report problems in files they did not check
 	descIdx  map[diagnosticDescriptor]int // descriptor of cands[i] -> i
 	buildIdx map[string]int
 
@@ -188,6 +189,7 @@ func c12NewUniverse(name string, builds []string, cands []c12Prob, filter ...fun
 	for _, c := range cands {
 		u.fileOf = append(u.fileOf, uint8(seen[c.File]))
 	}
+	u.stray = strings.HasPrefix(name, "stray")
 	u.enumRuns()
 	u.prepare()
 	return u
@@ -210,7 +212,7 @@ func (u *c12Universe) enumRuns() {
 			}
 			var allowed uint16
 			for i := 0; i < nc; i++ {
-				if checked&(1<<u.fileOf[i]) != 0 {
+				if u.stray || checked&(1<<u.fileOf[i]) != 0 {
 					allowed |= 1 << i
 				}
 			}
@@ -772,7 +774,7 @@ var (
 
 func c12Res() *vx.Result {
 	c12Once.Do(func() {
-		c12Result = vx.New("every multiset of <= N runs (run = build name x checked-file set x problem set inside the checked files) over the " +
+		c12Result = vx.New("every multiset of <= N runs (run = build name x checked-file set x problem set inside the checked files; universes named stray*: problem sets over all files) over the " +
 			"stated universe, every distinct order of it and every repetition of one of its runs, through real runFromLintResult+mergeRuns+" +
 			"printDiagnostics (stdout captured, text and json formatter) against a set-semantics model; non-trivial = multiset in which an " +
 			"'all' problem is dropped or a problem is printed under >= 2 build names")
@@ -1109,12 +1111,18 @@ func TestVerifC12InProcess(t *testing.T) {
 			// 3 runs over f:1 x {any, all, all with other End, any with other End}, f:2 all, g:1 all;
 			// 4-run sequences by repeating one run of each 3-multiset
 			{c12NewUniverse("f5g1", c12Builds, c12Cands("f1A", "f1B", "f2B", "f1Ae", "f1Be", "g1B")), 3, 3, 1},
+			// runs that report a problem in a file they did not check (//line directives, generated
+			// and cgo files, hand-written -f binary input): such a run neither vetoes nor licenses
+			{c12NewUniverse("stray3", c12Builds, c12Cands("f1A", "f1B", "g1B")), 2, 3, 1},
 		}
 	} else {
 		scopes = []scope{
 			{full, 0, 1, 2},
 			{c12NewUniverse("spec8", c12Builds, c12Cands("f1A", "f1B", "f2A", "f2B", "g1A", "g1B", "f1Ae", "f1Be")), 2, 2, 0},
 			{c12NewUniverse("f3g1", c12Builds, c12Cands("f1A", "f1B", "f1Be", "g1B")), 3, 3, 1},
+			// runs that report a problem in a file they did not check (//line directives, generated
+			// and cgo files, hand-written -f binary input): such a run neither vetoes nor licenses
+			{c12NewUniverse("stray2", c12Builds, c12Cands("f1A", "f1B")), 2, 3, 0},
 		}
 	}
 	for _, sc := range scopes {
